@@ -155,7 +155,7 @@ func ruleCombinators(c *Ctx, rule string) {
 				if comb.and && asked && rejects && !accepts && len(before) > 0 {
 					snapRejects++
 					for _, e := range after {
-						if strings.HasPrefix(e, "SET(CTX,KEY(UNK:*ssa.MakeMap),") {
+						if strings.HasPrefix(e, "SET(CTX,") {
 							snapSets++
 						}
 					}
@@ -207,27 +207,54 @@ func ruleCombinators(c *Ctx, rule string) {
 // every parameter of the snapshot.
 func combinatorEffects(and, asked, rejectsAfterAsk bool, before, after []string) []string {
 	var bad []string
-	const snapshot = "EACH(CTX){found:MAPSET UNK:*ssa.MakeMap[PK] = PV;missing:MAPSET UNK:*ssa.MakeMap[PK] = PV}"
+	// own: the effect touches neither the request nor the context — it fills or recycles memory of the combinator
+	// (the snapshot map or slice, a pooled buffer)
+	own := func(e string) bool {
+		return !strings.Contains(e, "CTX") && !strings.Contains(e, "R.") && !strings.HasPrefix(e, "STORE ?")
+	}
+	// a walk over the context's parameters whose callback writes nothing to the context or the request
+	isSnapshot := func(e string) bool {
+		if !strings.HasPrefix(e, "EACH(CTX){") {
+			return false
+		}
+		body := e[len("EACH(CTX){"):]
+		return !strings.Contains(body, "CTX") && !strings.Contains(body, "R.")
+	}
 	for _, e := range before {
-		if e != snapshot {
+		if !isSnapshot(e) && !own(e) {
 			bad = append(bad, "before asking a member the combinator has the effect "+e)
 		}
 	}
 	if !and || !asked || !rejectsAfterAsk {
 		for _, e := range after {
-			bad = append(bad, "the combinator has the effect "+e)
+			if !own(e) {
+				bad = append(bad, "the combinator has the effect "+e)
+			}
 		}
 		return bad
 	}
-	restoredPath, deletes, sets := false, false, false
+	restoredPath, deletes := false, false
 	for _, e := range after {
 		switch {
 		case e == "STORE R.URL.Path = R.URL.Path":
 			restoredPath = true // the value read before the first member (afterwards the location holds PATH-AFTER-MEMBER)
-		case strings.HasPrefix(e, "EACH(CTX){found:;missing:DELETE(CTX,PK)}"):
-			deletes = true
-		case strings.HasPrefix(e, "SET(CTX,KEY("):
-			sets = true
+		case strings.HasPrefix(e, "EACH(CTX){") && strings.Contains(e, "DELETE(CTX,PK)") && !strings.Contains(e, "SET(CTX"):
+			// a walk that deletes the visited key — not for every key: the part for a key found in the snapshot has
+			// an outcome without the deletion
+			found := e[strings.Index(e, "found:")+len("found:") : strings.Index(e, ";missing:")]
+			conditional := false
+			for _, alt := range strings.Split(found, "|") {
+				if !strings.Contains(alt, "DELETE(CTX,PK)") {
+					conditional = true
+				}
+			}
+			if conditional {
+				deletes = true
+			} else {
+				bad = append(bad, "while rejecting the combinator deletes every parameter, also those the context held before")
+			}
+		case strings.HasPrefix(e, "SET(CTX,"):
+		case own(e):
 		default:
 			bad = append(bad, "while rejecting the combinator has the effect "+e)
 		}
@@ -238,6 +265,5 @@ func combinatorEffects(and, asked, rejectsAfterAsk bool, before, after []string)
 	if !deletes {
 		bad = append(bad, "And rejects after a member was asked without deleting the parameters recorded since: a parameter of a member that accepted stays in the context")
 	}
-	_ = sets // the snapshot may be empty (nil when the context held no parameter)
 	return bad
 }
